@@ -72,7 +72,11 @@ pub fn flip(bytes: &[u8], bit: usize) -> Vec<u8> {
 /// (or first) element inserted, and lowered by one with the last element removed. Where the
 /// guess is wrong the result does not decode or decodes to something else that must not verify
 /// either; where it is right this is a well-formed object with one more / one fewer element.
-pub fn count_field_edits(bytes: &[u8]) -> Vec<(String, Vec<u8>)> {
+pub fn count_field_edits(bytes: &[u8]) -> Vec<(String, Vec<u8>)> { count_field_edits_sizes(bytes, &[32, 33, 48, 64, 96]) }
+
+/// The same for a given list of element sizes; also inserts a copy of the first element at the front
+/// (an equal key before the genuine entry).
+pub fn count_field_edits_sizes(bytes: &[u8], sizes: &[usize]) -> Vec<(String, Vec<u8>)> {
     let mut out = vec![];
     for width in [1usize, 4, 8] {
         for p in 0..bytes.len().saturating_sub(width) {
@@ -80,7 +84,7 @@ pub fn count_field_edits(bytes: &[u8]) -> Vec<(String, Vec<u8>)> {
             if v == 0 || v > 40 {
                 continue;
             }
-            for es in [32usize, 33, 48, 64, 96] {
+            for &es in sizes {
                 let end = p + width + v as usize * es;
                 if end > bytes.len() {
                     continue;
@@ -93,6 +97,12 @@ pub fn count_field_edits(bytes: &[u8]) -> Vec<(String, Vec<u8>)> {
                 b.extend_from_slice(&bytes[end - es..end]);
                 b.extend_from_slice(&bytes[end..]);
                 out.push((format!("count at {p} (width {width}) + 1, element of {es} bytes appended"), b));
+                // one more: copy of the first element in front
+                let mut b = bytes[..p].to_vec();
+                b.extend(put(v + 1));
+                b.extend_from_slice(&bytes[p + width..p + width + es]);
+                b.extend_from_slice(&bytes[p + width..]);
+                out.push((format!("count at {p} (width {width}) + 1, first element of {es} bytes repeated in front"), b));
                 // one fewer
                 let mut b = bytes[..p].to_vec();
                 b.extend(put(v - 1));
